@@ -24,7 +24,8 @@ logging.disable(logging.CRITICAL)
 
 def chrom_seq(world, ci):
     c = world["chroms"][ci]
-    return synth.make_reference(world["seed"] * 1000 + ci, c["length"])
+    seq = synth.make_reference(world["seed"] * 1000 + ci, c["length"])
+    return synth.make_unshiftable(seq, [(v["pos"], v["kind"], v.get("len", 1)) for v in c["variants"]])
 
 
 def build_variants(world, ci, seq):
